@@ -59,7 +59,29 @@ DTYPES = ["uint8", "uint16", "uint32", "uint64", "float32"]
 def gen_cases(tier, seed):
     rnd = random.Random(f"C03:{seed}")
     n = 1200 if tier == "quick" else 20000
-    return [{"hseed": rnd.randrange(2 ** 32)} for _ in range(n)]
+    cases = [{"hseed": rnd.randrange(2 ** 32)} for _ in range(n)]
+    # directed: chunks of more than 2^20 voxels (raw and compressed_segmentation)
+    for k in range(4 if tier == "quick" else 16):
+        cases.append({"hseed": rnd.randrange(2 ** 32), "huge": True,
+                      "enc": ["raw", "compressed_segmentation"][k % 2],
+                      "kind": ["file", "sharded"][(k // 2) % 2]})
+    return cases
+
+
+def _gen_huge(rnd, case):
+    enc = case["enc"]
+    dt = "uint32" if enc != "raw" else rnd.choice(["uint8", "uint16", "float32"])
+    sc = {"key": "s0", "size": [130, 129, 131], "chunk_sizes": [[128, 128, 128]],
+          "resolution": [1, 1, 1], "voxel_offset": [0, 0, 0], "encoding": enc}
+    if enc != "raw":
+        sc["compressed_segmentation_block_size"] = [8, 8, 8]
+    if case["kind"] == "sharded":
+        sc["sharding"] = shardlib.sharding_of(shardlib.gen_config(rnd, "quick"))
+    info = {"type": "image", "data_type": dt, "num_channels": 1, "scales": [sc]}
+    return {"kind": case["kind"], "info": info, "huge": True,
+            "opts": {"flat": rnd.random() < 0.5, "gzip": rnd.random() < 0.5,
+                     "compresslevel": 1},
+            "enc_opts": {}, "strategy": rnd.choice(["on disk", "in memory"])}
 
 
 def _gen_history(rnd):
@@ -203,7 +225,7 @@ def run_case(case):
     from neuroglancer_scripts import accessor as accessor_mod
     from neuroglancer_scripts import file_accessor, precomputed_io, sharded_file_accessor
     rnd = random.Random(case["hseed"])
-    h = _gen_history(rnd)
+    h = _gen_huge(rnd, case) if case.get("huge") else _gen_history(rnd)
     info = h["info"]
     enc = info["scales"][0]["encoding"]
     d = tempfile.mkdtemp(prefix="c03-")
@@ -212,6 +234,7 @@ def run_case(case):
            "read_checks_fresh_handle": 0, "rewrites": 0, "offgrid_attempts": 0,
            "offgrid_rejected": 0, "offgrid_kinds": {}, "encodings": {enc: 1},
            "accessors": {h["kind"]: 1}, "noncontiguous_arrays": 0, "numpy_int_coords": 0,
+           "chunks_over_2_20_voxels": int(bool(h.get("huge"))),
            "jpeg_max_err": 0, "two_chunk_size_entries": int(any(
                len(s["chunk_sizes"]) > 1 for s in info["scales"]))}
     ctx = (f"{h['kind']} {enc} {info['data_type']}x{info['num_channels']} scales="
@@ -237,10 +260,11 @@ def run_case(case):
         for sc in info["scales"]:
             g = _grid(sc)
             if h["kind"] == "sharded":
-                k = rnd.randint(1, len(g))
+                k = rnd.randint(1, len(g)) if not h.get("huge") else 2
+                g = sorted(g) if h.get("huge") else g
                 todo += [(sc, c) for c in rnd.sample(g, k)]
             else:
-                k = min(len(g), rnd.randint(1, 24))
+                k = min(len(g), rnd.randint(1, 24) if not h.get("huge") else 3)
                 picks = rnd.sample(g, k)
                 todo += [(sc, c) for c in picks]
                 todo += [(sc, c) for c in picks if rnd.random() < 0.2]   # rewrites
@@ -402,4 +426,5 @@ def gates(obs, tier):
         "noncontiguous_inputs": obs.get("noncontiguous_arrays", 0) > 100,
         "numpy_int_coords": obs.get("numpy_int_coords", 0) > 20,
         "info_revised_mid_history": obs.get("info_revisions", 0) > 20,
+        "chunks_beyond_2_20_voxels": obs.get("chunks_over_2_20_voxels", 0) > 0,
     }
